@@ -473,7 +473,14 @@ def concretise_type(T: dict, sp: int = 0, lit_ok: bool = True) -> t.Any:
     key = (canon(T), sp, lit_ok)
     r = _type_cache.get(key)
     if r is None:
-        r = _concretise_type(T, sp, lit_ok)
+        try:
+            r = _concretise_type(T, sp, lit_ok)
+        except OutOfVocab:
+            raise
+        except TypeError as e:
+            # raised by the typing module while the type expression is being written (e.g. an unhashable
+            # type literal inside typing.Union): the expression cannot be spelled this way; pane is not involved
+            raise OutOfVocab('typing refuses this spelling: ' + str(e)[:80])
         _type_cache[key] = r
         KEEPALIVE.append(r)
     return r
@@ -665,7 +672,11 @@ def make_class(C: dict, sp: int = 0) -> type:
                 opts['in_rename'] = tuple(csp['ins']) if len(csp['ins']) > 1 or sp % 2 == 0 else csp['ins'][0]
             if csp['out'] != 'none':
                 opts['out_rename'] = csp['out']
-    cls = types.new_class(C['name'], (pane.PaneBase,), opts, lambda d: d.update(ns))
+    try:
+        cls = types.new_class(C['name'], (pane.PaneBase,), opts, lambda d: d.update(ns))
+    except Exception as e:  # noqa
+        CLASS_DEF_FAILURES.append((C['name'], type(e).__name__, str(e)[:120]))
+        raise OutOfVocab(f'class definition refused by pane: {type(e).__name__}: {e}')
     HOOK_COUNTERS[cls] = counter
     FACTORIES[cls] = {text(f['n']): _FACT_OBJS[id(ns[text(f['n'])])] for f in C['fs']
                       if f['d']['k'] == 'fac' and id(ns.get(text(f['n']))) in _FACT_OBJS}
@@ -674,6 +685,7 @@ def make_class(C: dict, sp: int = 0) -> type:
     return cls
 
 
+CLASS_DEF_FAILURES: list = []     # reported in the evidence (a well-formed generated class must be definable)
 HOOK_COUNTERS: dict = {}
 FACTORIES: dict = {}
 _FACT_OBJS: dict = {}
